@@ -215,6 +215,11 @@ Definition sanitize_archive_arcname (path : str) : res str :=
 (* file name stored for arcname: pathlib.Path(arcname).as_posix() *)
 Definition make_name (arcname : str) : str := pp_str [arcname].
 
+(* py7zr/archiveinfo.py FilesInfo._read_name: read_utf16(buffer).replace("\\", "/") -- the name py7zr lists
+   for a stored name *)
+Definition read_name (stored : str) : str := map (fun c => if c =? 92 then 47 else c) stored.
+Definition listed_name (arcname : str) : str := read_name (make_name arcname).
+
 (* name stored by write(file, arcname=None): file is a str, or a Path whose str() is taken first *)
 Definition write_name_str (file : str) : res str :=
   do r <- sanitize_archive_arcname file; Ok (make_name r).
@@ -244,7 +249,7 @@ Definition of_strs (t : tree) : list str := map of_str (of_TL t).
 
 Definition name_row (s : str) : tree :=
   TL [t_strs (posix_parts s); t_bool (is_absolute s); t_bool (check_archive_path s); t_bool (spec_ok s);
-      t_res t_str (sanitize_archive_arcname s); t_str (make_name s)].
+      t_res t_str (sanitize_archive_arcname s); t_str (make_name s); t_str (listed_name s)].
 
 Definition path_dispatch (fn : Z) (a : tree) : tree :=
   match fn with
@@ -270,7 +275,7 @@ Definition path_dispatch (fn : Z) (a : tree) : tree :=
   | 109 => t_bool (spec_ok (of_str a))
   (* FN 110 pp_str : list str (raw segments) -> str *)
   | 110 => t_str (pp_str (of_strs a))
-  (* FN 111 name_rows : list str -> list (parts is_absolute check_archive_path spec_ok sanitize make_name) *)
+  (* FN 111 name_rows : list str -> list (parts is_absolute check_archive_path spec_ok sanitize make_name listed_name) *)
   | 111 => TL (map name_row (of_strs a))
   (* FN 112 pp_is_relative_to : (self other) raw segments -> bool *)
   | 112 => t_bool (pp_is_relative_to (of_strs (tnth a 0)) (of_strs (tnth a 1)))
@@ -278,5 +283,7 @@ Definition path_dispatch (fn : Z) (a : tree) : tree :=
   | 113 => t_res t_str (write_name_path (of_strs a))
   (* FN 114 posix_join : (a ps) -> str *)
   | 114 => t_str (posix_join (of_str (tnth a 0)) (of_strs (tnth a 1)))
+  (* FN 115 read_name : str -> str *)
+  | 115 => t_str (read_name (of_str a))
   | _ => TL [TI (-2)]
   end.
